@@ -7,6 +7,7 @@ import (
 	"fmt"
 	"io"
 	"math/rand"
+	"net"
 	"sync"
 	"sync/atomic"
 	"time"
@@ -305,6 +306,31 @@ func reconnectReal(w *trace.Writer, seed int64) bool {
 	rc := client.Reconnect(&client.BaseClient{}, func() { emit(trace.E{"ev": "cb", "k": "D"}) }, func() { emit(trace.E{"ev": "cb", "k": "R"}) })
 	q := client.Query{Addrs: []string{srv.addr}, Target: "t1", Queries: []client.Path{{"a"}}, Type: client.Stream,
 		NotificationHandler: handler, Timeout: 5 * time.Second}
+	unreachable := r.Intn(4) == 0
+	if unreachable {
+		// the target does not answer: a listener that accepts and stays silent (the dial hangs in the handshake) or a
+		// port nobody listens on (every dial is refused); the connection timeout is long, Close must not wait for it
+		lis, err := net.Listen("tcp", "127.0.0.1:0")
+		if err != nil {
+			panic(err)
+		}
+		q.Addrs = []string{lis.Addr().String()}
+		if r.Intn(2) == 0 {
+			lis.Close() // refused from now on
+		} else {
+			defer lis.Close()
+			go func() {
+				for {
+					c, err := lis.Accept()
+					if err != nil {
+						return
+					}
+					defer c.Close() // held open, never written to
+				}
+			}()
+		}
+		q.Timeout = 30 * time.Second
+	}
 	subDone := make(chan struct{})
 	go func() {
 		emit(trace.E{"ev": "inv", "op": "Subscribe"})
@@ -316,7 +342,11 @@ func reconnectReal(w *trace.Writer, seed int64) bool {
 		emit(trace.E{"ev": "ret", "op": "Subscribe", "res": res})
 		close(subDone)
 	}()
-	time.Sleep(time.Duration(r.Intn(1500)) * time.Millisecond)
+	if unreachable {
+		time.Sleep(time.Duration(20+r.Intn(400)) * time.Millisecond)
+	} else {
+		time.Sleep(time.Duration(r.Intn(1500)) * time.Millisecond)
+	}
 	emit(trace.E{"ev": "inv", "op": "Close"})
 	cd := make(chan struct{})
 	go func() { rc.Close(); emit(trace.E{"ev": "ret", "op": "Close"}); close(cd) }()
